@@ -216,3 +216,53 @@ Proof.
   apply bind_ok in H as (dbg & _ & H). apply bind_ok in H as (ifis & Hi & H). injection H as <-.
   cbn [fst]. exact (parse_stanzas_sorted _ [] [] ifis (Forall_nil _) Hi).
 Qed.
+
+(* ---- C02 -> C05: the (min,max) pair of every advertising interface the parser model accepts is
+   one that C05's parse_min_interval produces, so C05's theorems apply to all accepted configurations. *)
+From CR Require Model.Delay.
+Local Open Scope Z_scope.
+
+Lemma min_interval_link t mx mn : 0 <= mx -> parse_min_interval t mx = Ok mn ->
+  exists e, Delay.parse_min_interval e mx = Some mn.
+Proof.
+  intros Hmx H. unfold parse_min_interval in H. destruct t as [| | | |d|]; try discriminate.
+  1-3: exists None; unfold Delay.parse_min_interval, Delay.default_min, Delay.trunc_dur;
+       destruct (9 * sec <=? mx); injection H as <-; unfold truncate_s, mul_033, sec; f_equal;
+       try reflexivity; rewrite Z.rem_mod_nonneg by lia; reflexivity.
+  exists (Some d). unfold Delay.parse_min_interval, Delay.trunc_dur.
+  assert (E : truncate_s (mul_075 mx) = 3 * mx / 4 - (3 * mx / 4) mod sec).
+  { unfold truncate_s, mul_075, sec. rewrite Z.rem_mod_nonneg by lia. reflexivity. }
+  rewrite E in H. destruct ((d <? 3 * sec) || (3 * mx / 4 - (3 * mx / 4) mod sec <? d)); [discriminate|].
+  injection H as <-. reflexivity.
+Qed.
+
+Definition intervals_ok (i : iface) : Prop :=
+  if_monitor i = true \/
+  (4 * sec <= if_max i <= 1800 * sec /\ exists e, Delay.parse_min_interval e (if_max i) = Some (if_min i)).
+
+Lemma parse_interface_intervals ifi name i : parse_interface ifi name = Ok i -> intervals_ok i.
+Proof.
+  unfold parse_interface, intervals_ok. intros H. apply bind_ok in H as (u & _ & H).
+  destruct (ri_monitor ifi) eqn:Em.
+  - injection H as <-. left. reflexivity.
+  - right. apply bind_ok in H as (mx & _ & H). apply bind_ok in H as (u2 & Hr & H).
+    apply bind_ok in H as (mn & Hmn & H). peel H. injection H as <-. cbn [if_max if_min].
+    unfold reject_if in Hr. destruct ((mx <? 4 * sec) || (1800 * sec <? mx)) eqn:E; [discriminate|].
+    assert (Hmx : 4 * sec <= mx <= 1800 * sec) by (unfold sec in *; lia).
+    split; [exact Hmx|]. apply (min_interval_link (ri_min ifi) mx mn); [unfold sec in *; lia|exact Hmn].
+Qed.
+
+Lemma parse_intervals raw c : parse raw = Ok c -> Forall intervals_ok (fst c).
+Proof.
+  unfold parse. intros H. apply bind_ok in H as (u & _ & H). cbv zeta in H.
+  apply bind_ok in H as (dbg & _ & H). apply bind_ok in H as (ifis & Hi & H). injection H as <-. cbn [fst].
+  assert (G : forall sts seen acc out, Forall intervals_ok acc -> parse_stanzas sts seen acc = Ok out -> Forall intervals_ok out).
+  { induction sts as [|st rest IH]; intros seen acc out Hacc H; cbn [parse_stanzas] in H.
+    - injection H as <-. exact Hacc.
+    - apply bind_ok in H as (l & Hl & H). apply bind_ok in H as (seen' & _ & H).
+      apply (IH seen' (acc ++ l) out); [|exact H]. apply Forall_app. split; [exact Hacc|].
+      unfold parse_interfaces in Hl.
+      destruct (negb (N.eqb (ri_name st) 0)); destruct (ri_names st); try discriminate;
+        eapply mapM_in; try exact Hl; intros x y; apply parse_interface_intervals. }
+  exact (G _ [] [] ifis (Forall_nil _) Hi).
+Qed.
